@@ -21,7 +21,8 @@ from concurrent.futures import ThreadPoolExecutor
 
 VERIF = os.path.dirname(os.path.dirname(os.path.abspath(__file__)))
 REPO = "/repo"
-ALWAYS = ["C03", "C02"]
+ALWAYS = ["C03"]
+SKIP_FUNCTIONS = ("__repr__", "__str__")
 MAP = {
     "usim/_core/loop.py": ["C01", "C15", "C20"],
     "usim/_core/waitq.py": ["C01"],
@@ -61,7 +62,17 @@ def is_docstring(node):
 def mutants(tree):
     """Yield (description, lineno, mutated tree)."""
     nodes = list(ast.walk(tree))
+    skipped = set()
+    for node in nodes:
+        if isinstance(node, (ast.FunctionDef, ast.AsyncFunctionDef)) and \
+                node.name in SKIP_FUNCTIONS:
+            skipped.update(id(sub) for sub in ast.walk(node))
+        if isinstance(node, ast.If) and isinstance(node.test, ast.Name) and \
+                node.test.id == "__debug__":
+            skipped.update(id(sub) for sub in ast.walk(node))
     for index, node in enumerate(nodes):
+        if id(node) in skipped:
+            continue
         # statement deletion
         for field in ("body", "orelse", "finalbody"):
             block = getattr(node, field, None)
@@ -145,8 +156,8 @@ def evaluate(job):
                 shutil.copy(src, root)
         with open(os.path.join(root, rel), "w") as stream:
             stream.write(source)
-        code, out = sh("timeout 300 /venv/bin/python -m pytest -q -x -p no:cacheprovider "
-                       "--timeout=120 2>&1 | tail -1", cwd=root, timeout=400)
+        code, out = sh("timeout 120 /venv/bin/python -m pytest -q -x -p no:cacheprovider "
+                       "--timeout=60 2>&1 | tail -1", cwd=root, timeout=200)
         result = {"file": rel, "line": lineno, "mutation": desc}
         import re
         if "passed" not in out or re.search(r"\b\d+ (failed|error)", out):
@@ -156,7 +167,7 @@ def evaluate(job):
         caught = []
         env = dict(os.environ, USIM_REPO=root, VERIF_EVIDENCE_DIR=os.path.join(root, "ev"),
                    VERIF_REPLAY_DIR=os.path.join(root, "rp"), VERIF_SCALE=str(scale),
-                   VERIF_WORKERS="2")
+                   VERIF_WORKERS="1")
         for check in MAP.get(rel, []) + ALWAYS:
             code, out = sh(["timeout", "600", os.path.join(VERIF, "check"), check, "--tier",
                             "quick"], env=env, timeout=700)
